@@ -4,7 +4,7 @@
    [specified E S]: E is one of the twelve entry points, S its specification (wf, enc, traversal).
    Agreement with rust-bitcoin's decoder is checked differentially on every run (not a theorem). *)
 From BS Require Import Impl.Visit Ref.MetaDefs Proofs.ImplRefLeaf Proofs.ImplRefTx Proofs.Transfer Proofs.Entries
-  Proofs.SpecLemmas Proofs.RefSpec Proofs.SpecTransfer Proofs.TxSpec Proofs.ObjSpec.
+  Proofs.SpecLemmas Proofs.RefSpec Proofs.SpecTransfer Proofs.TxSpec Proofs.ObjSpec Proofs.FlagSpec.
 Open Scope N_scope.
 
 (* each parser succeeds iff the slice begins with a well-formed encoding of that object *)
@@ -69,6 +69,25 @@ Proof.
   cbn [s_proj S_txouts spec_of_decodes] in Hx. subst x. exists a. split; [exact Hwf|split; [exact Hb|]].
   change (parsed pr = mk_txouts (sl p (enc_txouts a)) a h') in Hp. rewrite Hp. reflexivity.
 Qed.
+
+(* the other counts and the emptiness flags: input lists, output lists, witnesses, witness lists, blocks *)
+Theorem C03_txins_count_and_emptiness : forall brk p b h pr h', In63 b -> visit_txins brk (sl p b) h = (Ok pr, h') ->
+  exists a, wf_txins a /\ b = enc_txins a ++ bytes (remaining pr) /\ tis_n (parsed pr) = lenN a /\
+            txins_is_empty (parsed pr) = Ok (is_nil a).
+Proof. exact txins_flags. Qed.
+Theorem C03_txouts_count_and_emptiness : forall brk p b h pr h', In63 b -> visit_txouts brk (sl p b) h = (Ok pr, h') ->
+  exists a, wf_txouts a /\ b = enc_txouts a ++ bytes (remaining pr) /\ tos_n (parsed pr) = lenN a /\
+            txouts_is_empty (parsed pr) = Ok (is_nil a).
+Proof. exact txouts_flags. Qed.
+Theorem C03_witness_emptiness : forall brk p b h pr h', In63 b -> visit_witness brk (sl p b) h = (Ok pr, h') ->
+  exists a, wf_witness a /\ b = enc_witness a ++ bytes (remaining pr) /\ witness_is_empty (parsed pr) = Ok (is_nil a).
+Proof. exact witness_flags. Qed.
+Theorem C03_witnesses_all_empty : forall n brk p b h pr h', In63 b -> visit_witnesses brk (sl p b) n h = (Ok pr, h') ->
+  exists ws, lenN ws = n /\ b = enc_witnesses ws ++ bytes (remaining pr) /\ ws_all_empty (parsed pr) = forallb is_nil ws.
+Proof. exact witnesses_flags. Qed.
+Theorem C03_block_total_transactions : forall brk p b h pr h', InLen b -> visit_block brk (sl p b) h = (Ok pr, h') ->
+  exists a, wf_block a /\ b = enc_block a ++ bytes (remaining pr) /\ b_total (parsed pr) = lenN (ab_txs a).
+Proof. exact block_total. Qed.
 
 Example C03_hypotheses_satisfiable : specified E_block S_block /\ wf_script [x51] /\ enc_script [x51] = [x01; x51].
 Proof. split; [constructor|split; [unfold wf_script; reflexivity|reflexivity]]. Qed.
